@@ -30,7 +30,9 @@ def write(t, doc) -> bytes:
         return json.dumps(doc, indent=[None, None, 1][variant % 3], ensure_ascii=variant % 2 == 0).encode("utf-8", "surrogatepass")
     if t == "json5":
         if variant % 2 == 0:
-            return json.dumps(doc, ensure_ascii=variant % 4 == 0).encode("utf-8", "surrogatepass")
+            # (the pinned json5 parser rejects a raw U+2028 / U+2029 inside a string although JSON5 allows it: those stay escaped)
+            raw = variant % 4 != 0 and not any(c in repr_text(doc) for c in ("\u2028", "\u2029"))
+            return json.dumps(doc, ensure_ascii=not raw).encode("utf-8", "surrogatepass")
         import json5
         # genuine JSON5 syntax: unquoted keys, trailing commas (+ a comment and a single-quoted string when possible)
         text = json5.dumps(doc, indent=[None, 1][variant % 4 // 2], quote_keys=False, trailing_commas=True)
